@@ -64,6 +64,7 @@ MIN_COUNTERS = {
     'quick': {'gen_compared': 1500, 'gen_unit_count_checks': 1500,
               'gen_bytes_trees_compared': 300, 'gen_tuple_probes': 30,
               'op_compared': 500, 'meth_compared': 250,
+              'meth_compared_with_tuple_arguments': 150,
               'out_units_checked': 500, 'out_zero_inputs_checked': 100,
               'out_second_builds_with_shared_arguments': 300,
               'out_argument_snapshots_compared': 1000,
@@ -73,6 +74,7 @@ MIN_COUNTERS = {
     'thorough': {'gen_compared': 100000, 'gen_unit_count_checks': 100000,
                  'gen_bytes_trees_compared': 20000, 'gen_tuple_probes': 2000,
                  'op_compared': 30000, 'meth_compared': 15000,
+                 'meth_compared_with_tuple_arguments': 5000,
                  'out_units_checked': 30000, 'out_zero_inputs_checked': 5000,
                  'out_second_builds_with_shared_arguments': 10000,
                  'out_argument_snapshots_compared': 50000,
@@ -524,6 +526,8 @@ def gen_call_templates(rng, ent):
     templates = []
     # make sure at least one list is present in most calls
     variable = [k for k in range(n_given) if params[k][1] != 'fixed']
+    # tuple mode: tuples in every position, alone and inside / next to lists
+    tuple_mode = rng.random() < 0.1
     must_list = rng.choice(variable) if variable and rng.random() < 0.9 else None
     for k in range(n_given):
         _, kind, default = params[k]
@@ -533,7 +537,7 @@ def gen_call_templates(rng, ent):
         p_ugen = 0.0 if not rates else (
             0.55 if kind == 'req' and ent['reqleaf'] == 'ugen' else
             0.12 if kind == 'num' and k in ent['ugen_ok'] else 0.0)
-        p_tuple = 0.0 if kind == 'chan' else 0.04
+        p_tuple = 0.0 if kind == 'chan' else (0.5 if tuple_mode else 0.04)
         force = None
         if k == must_list:
             force = rng.choices(['list', 'nested', 'chlist'], [60, 30, 10])[0]
@@ -1038,8 +1042,37 @@ def run_meth(spec, acc, H):
         recv = gen_receiver(rng, 0.0, rates, inner_plain=False)
         n_given = rng.randint(nreq, len(kinds)) if rng.random() < 0.7 \
             else len(kinds)
+        # tuple mode: every given argument is a sequence and at least one is a
+        # tuple (alone, or next to lists of other lengths); a tuple is ONE
+        # cell of the expansion, whatever its length
+        nseq = len([k for k in kinds if k != 'ptype'])
+        tuple_mode = rng.random() < 0.3 and nseq > 0 and nreq <= nseq
+        if tuple_mode:
+            n_given = rng.randint(max(nreq, 1), nseq)
+            forced = rng.randrange(n_given)
         args = []
-        for k in kinds[:n_given]:
+        for pos, k in enumerate(kinds[:n_given]):
+            if tuple_mode:
+                numfn = pos_num if k == 'pos' else (
+                    lambda r: r.choice(M.F32_NUMS))
+                p_ugen = 0.3 if k == 'sig' else 0.05
+
+                def tup():
+                    return ('tup', [M.gen_leaf(rng, numfn, p_ugen, 0.0, rates)
+                                    for _ in range(rng.choice([1, 2, 2, 3, 4, 5]))])
+                r = rng.random()
+                if pos == forced or r < 0.45:
+                    args.append(tup())
+                elif r < 0.8:
+                    args.append(('list', [
+                        tup() if rng.random() < 0.3 else
+                        M.gen_leaf(rng, numfn, p_ugen, 0.0, rates)
+                        for _ in range(rng.choice([1, 2, 3, 4]))],
+                        rng.random() < 0.3))
+                else:
+                    args.append(('list', [tup() for _ in range(
+                        rng.choice([1, 2, 3]))], False))
+                continue
             if k == 'ptype':
                 args.append(('str', rng.choice(['minmax', 'min', 'max'])))
                 continue
@@ -1094,6 +1127,15 @@ def meth_build(acc, H, i, name, recv, args, classify, share, build_no):
             st['count_ok'] = cE == cR
             st['cE'], st['cR'] = dict(cE), dict(cR)
             st['Erepr'], st['Rrepr'] = repr(E)[:500], repr(R)[:500]
+            if st['diff'] and any(isinstance(x, tuple) for x in aR):
+                # mechanism: is the result what the law gives when the tuple
+                # arguments are (wrongly) taken for lists?
+                a2 = [list(x) if isinstance(x, tuple) else x for x in aR]
+                R2, x2, _ = H.count_created(lambda: M.expand(
+                    [rR] + a2, lambda x: getattr(x[0], name)(*x[1:]),
+                    H.ChannelList, {}))
+                st['tuple_expanded'] = x2 is None and \
+                    H.diff_kind(E, R2, s) is None
     H.build(body)
     wit = {'case': i, 'method': name, 'receiver': repr(recv),
            'args': [repr(t) for t in args], 'build': build_no}
@@ -1121,6 +1163,8 @@ def meth_build(acc, H, i, name, recv, args, classify, share, build_no):
         wit['exception'] = short_tb(st['Eexc'])
     else:
         acc.count('meth_compared')
+        if any(M.template_has(t, 'tup') for t in args):
+            acc.count('meth_compared_with_tuple_arguments')
         acc.count('meth/' + name)
         if st['diff']:
             kind = 'result-' + st['diff']
@@ -1150,7 +1194,12 @@ def meth_build(acc, H, i, name, recv, args, classify, share, build_no):
                 how = '/defaults'
         if build_no == 2:
             how += '/on-reused-arguments'
-        acc.violation(f'C03/chlist-method/{name}/{fam}{how}', wit)
+        if st.get('tuple_expanded'):
+            # one mechanism for every method: a tuple argument was zipped
+            # across the channels instead of being handed whole to each one
+            acc.violation('C03/chlist-method/tuple-argument-expanded', wit)
+        else:
+            acc.violation(f'C03/chlist-method/{name}/{fam}{how}', wit)
     return kind
 
 
